@@ -738,6 +738,165 @@ def loop_attr_family(rng, n_random):
     return out
 
 
+# ================================================================================================
+# expressions whose operands are ALL literals (the compiler folds them: Expr::as_const), and macro calls
+# with every way of passing the arguments
+# ================================================================================================
+def literal_family(rng, n_random):
+    """(body, ctx): chained comparisons of 2-4 operators over literal ints / strings / bools / lists (all
+    operator combinations, equal / increasing / decreasing / non-monotone operands, in / not in, operands
+    that cannot be compared), the same chains in the places where statements use expressions (if / elif,
+    loop filter, set, with, macro default, argument), and random literal-only expressions of every other
+    form (arithmetic incl. division by zero, and / or / not, ~, filters, tests, if-expressions, lists,
+    subscripts; the random generator with no variables in scope)."""
+    out = []
+    I = lambda n: ("int", n); S = lambda t: ("str", t)
+    ops6 = ["<", "<=", ">", ">=", "==", "!="]
+    exprs = []
+    for o1 in ops6:                                   # every operator pair x every operand triple over {1, 2, 3}
+        for o2 in ops6:
+            for a in (1, 2, 3):
+                for b in (1, 2, 3):
+                    for c in (1, 2, 3):
+                        exprs.append(("cmp", I(a), [(o1, I(b)), (o2, I(c))]))
+    for o1 in ops6:                                   # strings
+        for o2 in ops6:
+            for t in (("a", "b", "a"), ("b", "a", "b"), ("a", "b", "c"), ("c", "b", "a"), ("a", "a", "b"), ("b", "a", "a"), ("a", "c", "b"), ("", "a", "")):
+                exprs.append(("cmp", S(t[0]), [(o1, S(t[1])), (o2, S(t[2]))]))
+    vals4 = [(1, 3, 2, 4), (2, 1, 3, 1), (1, 2, 2, 1), (3, 2, 1, 2), (1, 1, 2, 2), (2, 3, 1, 3), (4, 1, 1, 4), (0, -1, 5, 0)]
+    k = 0
+    for o1 in ops6:                                   # three operators: every operator triple, rotating operand tuples
+        for o2 in ops6:
+            for o3 in ops6:
+                for rep in range(2):
+                    v = vals4[k % len(vals4)]; k += 1
+                    exprs.append(("cmp", I(v[0]), [(o1, I(v[1])), (o2, I(v[2])), (o3, I(v[3]))]))
+    for _ in range(n_random // 4):                    # four operators, random
+        v = [rng.below(4) for _ in range(5)]
+        exprs.append(("cmp", I(v[0]), [(rng.choice(ops6), I(x)) for x in v[1:]]))
+    L = lambda *xs: ("list", [I(x) for x in xs])
+    for e in [("cmp", I(1), [("in", L(1, 2)), ("==", L(1, 2))]), ("cmp", I(1), [("in", L(1, 2)), ("in", ("list", [L(1, 2)]))]),
+              ("cmp", I(1), [("<", I(2)), ("in", L(2, 3))]), ("cmp", I(3), [(">", I(2)), ("in", L(1, 3))]),
+              ("cmp", I(2), [("in", L(1, 2)), ("!=", L(2, 1))]), ("cmp", I(5), [("notin", L(1, 2)), ("==", L(1, 2))]),
+              ("cmp", I(1), [("notin", L(1, 2)), ("==", L(1, 2))]), ("cmp", I(1), [("<", I(3)), ("notin", L(3))]),
+              # (`in` on strings - substring containment - is not in Lang/Interp.v::do_cmp: not generated)
+              # (the order of sequences is outside Lang/Interp.v::value_ltb: `<` on lists is not generated)
+              ("cmp", L(1), [("==", L(1)), ("!=", L(1, 2))]), ("cmp", L(1, 2), [("!=", L(2, 1)), ("==", L(2, 1))]),
+              ("cmp", ("bool", True), [("==", ("bool", True)), ("!=", ("bool", False))]), ("cmp", ("bool", False), [("!=", ("bool", True)), ("==", ("bool", False))]),
+              ("cmp", ("bool", True), [("==", I(1)), ("<", I(2))]), ("cmp", ("none",), [("==", ("none",)), ("!=", I(0))]),
+              ("cmp", I(1), [("<", S("a")), (">", I(0))]), ("cmp", I(1), [("<", I(2)), ("<", S("a"))]), ("cmp", I(2), [("<", I(1)), ("<", S("a"))]),
+              ("cmp", I(1), [("==", S("1")), ("!=", I(1))]), ("cmp", I(1), [("<", I(3)), (">", I(2))]), ("cmp", I(1), [("<", I(2)), ("<", I(2))])]:
+        exprs.append(e)
+    # packed: several expressions per template (a failing one is isolated by the shrinker)
+    for i in range(0, len(exprs), 6):
+        body = []
+        for e in exprs[i:i + 6]:
+            body += [("emit", e), ("raw", ",")]
+        out.append((body, {}))
+    # the chains where statements use expressions
+    for j, e in enumerate(exprs[::7]):
+        yes = [("raw", "y")]
+        forms = [
+            [("if", [(e, yes), (("bool", True), [("raw", "elif")])], [("raw", "n")])],
+            [("if", [(("bool", False), yes), (e, [("raw", "second")])], [("raw", "n")])],
+            [("for", "x", ("list", [I(1), I(2)]), e, [("emit", ("var", "x"))], [("raw", "E")], False)],
+            [("set", "v", e), ("emit", ("var", "v")), ("with", [("w", ("not", e))], [("emit", ("var", "w"))])],
+            [("macro", "m", ["p"], [("p", e)], [("emit", ("var", "p"))]), ("emit", ("call", "m", [], [])), ("emit", ("call", "m", [("and", e, I(7))], [])),
+             ("emit", ("call", "m", [], [("p", ("or", e, S("o")))]))],
+            [("emit", ("ifexpr", e, S("t"), S("f"))), ("emit", ("filter", "default", e, [I(0)])), ("emit", ("list", [e, ("not", e)]))],
+        ]
+        out.append((forms[j % len(forms)], {}))
+    # every other expression form over literals only: the random generator with nothing in scope
+    for j in range(n_random):
+        g = proggen.Gen(rng, {"undefined": 0}, max_depth=4)
+        d = 2 + rng.below(3)
+        c = rng.below(5)
+        if c == 0: e = g.int_expr({}, d)
+        elif c == 1: e = g.str_expr({}, d)
+        elif c == 2: e = ("filter", "length", g.list_expr({}, d), [])
+        else: e = g.bool_expr({}, d)
+        out.append(([("emit", e)], {}))
+    return out
+
+
+def macro_call_family():
+    """Macros with 2-5 parameters (defaults on all, on the tail, on none): calls with every positional prefix
+    x every subset of the remaining parameters by keyword in every order (all orders up to 3 keywords,
+    two orders beyond) - including the gaps: a parameter left out, a later one passed by keyword; the error
+    cases (too many positional, unknown keyword, a parameter both positional and by keyword) one per
+    template.  Returns (plain, equiv): plain = (body, ctx) inside the Lang syntax; equiv = (kind, left
+    source, right body, ctx) for call blocks called WITH keyword arguments and for call blocks with
+    parameters of their own invoked through caller(...): left is the real construct, right the same calls
+    on plain macros."""
+    import itertools
+    plain, equiv = [], []
+    E = proggen.expr_src
+    names = ["a", "b", "c", "d", "e"]
+    sigs = []
+    for n in (2, 3, 4, 5):
+        for nd in sorted({n, n - 1, max(0, n - 2), 0}):          # how many trailing parameters have defaults
+            sigs.append((names[:n], [(p, ("str", "d" + p)) for p in names[n - nd:n]]))
+
+    def calls_of(params):
+        n = len(params)
+        res = []
+        for p in range(n + 1):
+            rest = params[p:]
+            for r in range(len(rest) + 1):
+                for sub in itertools.combinations(rest, r):
+                    orders = list(itertools.permutations(sub)) if r <= 3 else [sub, tuple(reversed(sub))]
+                    for order in orders:
+                        args = [("int", i + 1) for i in range(p)]
+                        kwargs = [(q, ("int", 10 * (params.index(q) + 1))) for q in order]
+                        res.append((args, kwargs))
+        return res
+
+    def show(params):
+        body = [("raw", "[")]
+        for i, q in enumerate(params):
+            body += ([("raw", "|")] if i else []) + [("emit", ("var", q))]
+        return body + [("raw", "]")]
+
+    for params, defaults in sigs:
+        calls = calls_of(params)
+        if len(params) == 5:
+            calls = calls[::3]
+        mac = ("macro", "m", params, defaults, show(params))
+        for i in range(0, len(calls), 8):
+            plain.append(([mac] + [("emit", ("call", "m", a, kw)) for a, kw in calls[i:i + 8]], {}))
+        # error cases
+        n = len(params)
+        errs = [([("int", i) for i in range(n + 1)], []), ([], [("zz", ("int", 1))]), ([("int", 1)], [(params[0], ("int", 2))]),
+                ([("int", 1)], [(params[-1], ("int", 3)), ("zz", ("int", 1))]), ([("int", i) for i in range(n)], [(params[-1], ("int", 3))])]
+        for a, kw in errs:
+            plain.append(([mac, ("raw", "before"), ("emit", ("call", "m", a, kw))], {}))
+        if len(params) in (3, 4):
+            # the macro called through a call block with these arguments (it also takes its caller)
+            box = lambda cal: ("macro", "m", params, defaults, show(params) + [("raw", "<"), ("emit", ("call", cal, [], [])), ("raw", ">")])
+            cb = ("macro", "cb", [], [], [("raw", "body")])
+            for i in range(0, len(calls), 6):
+                chunk = calls[i:i + 6]
+                left = proggen.stmt_src(box("caller"))
+                for a, kw in chunk:
+                    left += "{% call m(" + ", ".join([E(x) for x in a] + [q + "=" + E(v) for q, v in kw]) + ") %}body{% endcall %}"
+                right = [cb, box("cb")] + [("emit", ("call", "m", a, kw)) for a, kw in chunk]
+                equiv.append(("callblock_kwargs", left, right, {}))
+            # a call block with these parameters, invoked through caller(...) with these arguments
+            dflt = dict(defaults)
+            sig_src = ", ".join(q + ((" = " + E(dflt[q])) if q in dflt else "") for q in params)
+            for i in range(0, len(calls), 6):
+                chunk = calls[i:i + 6]
+                inv = lambda cal: [("emit", ("call", cal, a, kw)) for a, kw in chunk]
+                left = proggen.stmt_src(("macro", "run", [], [], inv("caller"))) + "{% call(" + sig_src + ") run() %}" + proggen.body_src(show(params)) + "{% endcall %}"
+                right = [("macro", "cb", params, defaults, show(params)), ("macro", "run", [], [], inv("cb")), ("emit", ("call", "run", [], []))]
+                equiv.append(("caller_params", left, right, {}))
+            for a, kw in errs[:3]:
+                left = proggen.stmt_src(("macro", "run", [], [], [("raw", "before"), ("emit", ("call", "caller", a, kw))])) + "{% call(" + sig_src + ") run() %}x{% endcall %}"
+                right = [("macro", "cb", params, defaults, [("raw", "x")]), ("macro", "run", [], [], [("raw", "before"), ("emit", ("call", "cb", a, kw))]), ("emit", ("call", "run", [], []))]
+                equiv.append(("caller_params", left, right, {}))
+    return plain, equiv
+
+
 def main():
     chk = Check("C03", "proof")
     chk.cov["trusted_base"] = TRUSTED_COMMON + ["Print Assumptions of the C03 theorems: see coverage.theorems",
@@ -793,6 +952,17 @@ def main():
             for md in ("lenient", "strict", "semistrict", "chainable"):
                 progs.append((body, ctx, md))
         chk.cov["map_family_cases"] = 4 * len(mf)
+        litf = literal_family(chk.rng, 15000 if chk.thorough else 1500)
+        for body, ctx in litf:
+            progs.append((body, ctx, "lenient"))
+        chk.cov["literal_family_cases"] = len(litf)
+        mc_plain, mc_equiv = macro_call_family()
+        for body, ctx in mc_plain:
+            progs.append((body, ctx, "lenient"))
+        chk.cov["macro_call_family_cases"] = len(mc_plain) + len(mc_equiv)
+        for kind, left, right, ctx in mc_equiv:
+            equiv.append((len(progs), kind, left))
+            progs.append((right, ctx, "lenient"))
         # constructs outside the Lang syntax, through their element-wise equivalents inside it
         oracle_cases = loop_attr_family(chk.rng, 3000 if chk.thorough else 300)
         for kind, left, right, ctx in equivalence_family(chk.rng, 0):
@@ -924,7 +1094,7 @@ def main():
     chk.cov["evaluations"] = 2 * len(progs) + extra_ctx_runs
     chk.cov["distinct_nontrivial"] = len(nontriv)
     chk.cov["programs"] = len(progs)
-    chk.cov["rule"] = ("typed random core-fragment programs (depth 2-4) x random contexts of ints/strings/bools/lists/maps, the map_family of this file under all four undefined modes, the exhaustive closure/scoping family of tools/proggen.py::closure_family, the families of this file (sibling_family: macros of one scope sharing free names, one re-binds a name locally, the others are called afterwards, recursion + call blocks; loop_and_rebinding_family: `loop` in the filter / subject / else part of an inner loop, one name called while bound to different callables; equivalence_family: unpacking set / with and loops over strings through their element-wise equivalents inside the fragment; loop_attr_family: all 13 loop attributes in every read order against an oracle on the iterated sequence, engine only), plus standalone expressions `{{ e }}` (depth 2-4, "
+    chk.cov["rule"] = ("typed random core-fragment programs (depth 2-4) x random contexts of ints/strings/bools/lists/maps, the map_family of this file under all four undefined modes, the exhaustive closure/scoping family of tools/proggen.py::closure_family, the families of this file (sibling_family: macros of one scope sharing free names, one re-binds a name locally, the others are called afterwards, recursion + call blocks; loop_and_rebinding_family: `loop` in the filter / subject / else part of an inner loop, one name called while bound to different callables; equivalence_family: unpacking set / with and loops over strings through their element-wise equivalents inside the fragment; loop_attr_family: all 13 loop attributes in every read order against an oracle on the iterated sequence, engine only; literal_family: expressions whose operands are all literals - what the compiler folds -: every pair / triple of comparison operators in a chain over equal, monotone and non-monotone literal operands, the chains inside if / elif / loop filter / set / with / macro default / argument, random literal-only expressions; macro_call_family: macros with 2-5 parameters called with every positional prefix x every subset of the remaining parameters by keyword in every order incl. gaps, the error cases, the same through call blocks with keyword arguments and through caller(...) into call blocks with parameters - the last two by equivalence with plain macros), plus standalone expressions `{{ e }}` (depth 2-4, "
                        "possibly undefined variables, all four undefined modes); each rendered by the engine (debug+release), by the extracted reference interpreter and by the "
                        "extracted model VM on the model compiler's stream; each program's real instruction stream compared with the model compiler's; "
                        "non-trivial = distinct (program, context, mode) rendering to non-empty output without error, programs with >= 3 statement nodes")
@@ -981,7 +1151,9 @@ def main():
         m = model[i]
         chk.violation({"unpack_set": "unpacking set does not evaluate the right-hand side completely before binding the targets (differs from its sequential equivalent under the reference semantics)",
                        "unpack_with": "unpacking with-assignment does not evaluate the right-hand side completely before binding the targets (differs from its sequential equivalent under the reference semantics)",
-                       "string_loop": "a loop over a string is not the loop over its characters (loop.* fields / items differ from the reference semantics of the character list)"}.get(kind, "engine output differs from the reference semantics of the equivalent program"),
+                       "string_loop": "a loop over a string is not the loop over its characters (loop.* fields / items differ from the reference semantics of the character list)",
+                       "callblock_kwargs": "a macro called through a call block with keyword arguments does not bind them as the same call of a plain macro does under the reference semantics",
+                       "caller_params": "caller(...) does not bind the parameters of the call block as the same call of a plain macro does under the reference semantics"}.get(kind, "engine output differs from the reference semantics of the equivalent program"),
                       {"template": left, "left_template": left, "kind": kind, "context": progs[i][1], "mode": progs[i][2], "profile": "release" if rel else "debug",
                        "engine": ("".join(chr(c) for c in e[2:]) if e[:1] == [0] else e),
                        "reference": ("".join(chr(c) for c in m[2:]) if m[:1] == [0] else m),
